@@ -1,4 +1,156 @@
 import VpnCloud.Model.Beacon
 import VpnCloud.Spec.C17
+import VpnCloud.Proofs.C18
+import VpnCloud.Proofs.Lemmas.BeaconLemmas
+/-
+  C17 — the beacon text codec (`mask_with_keystream`, `encrypt_data` / `decrypt_data`,
+  `peerlist_encode` / `peerlist_decode`, `decode`), with the hash as a parameter (`BeaconEnv`).
+  All statements are proved as given (no hypothesis added).  `EnvWF` is declared in
+  `VpnCloud/Proofs/Lemmas/BeaconLemmas.lean` (in this namespace) because the lemmas need it.
+  The hypothesis `hz` of the round trip (masked body does not begin with a zero byte) is part of the
+  given statement; the `example`s at the end show that it cannot be dropped.
+-/
 namespace VpnCloud.Proofs.C17
+
+open VpnCloud VpnCloud.Beacon VpnCloud.Codec VpnCloud.Spec.C17
+open VpnCloud.Proofs.BeaconLemmas
+
+/- The statements are kept exactly as specified; some of their hypotheses are not needed by the proofs
+   (`h` in `encrypt_decrypt`, `hn` in `age_window` / `peerlist_roundtrip_partial` / `too_old_ignored`,
+   `hbm` in `decode_clean`).  The lemma file has the versions without them. -/
+set_option linter.unusedVariables false
+
+theorem mask_length (env : BeaconEnv) (d : Bytes) (t s : Nat) : (mask env d t s).length = d.length :=
+  maskFrom_length env t s d 0 0
+
+/-- masking twice with the same key stream is the identity -/
+theorem mask_involutive (env : BeaconEnv) (d : Bytes) (t s : Nat) : mask env (mask env d t s) t s = d :=
+  maskFrom_involutive env t s d 0 0
+
+theorem mask_wf (env : BeaconEnv) (h : EnvWF env) (d : Bytes) (hd : Bytes.WF d) (t s : Nat) : Bytes.WF (mask env d t s) :=
+  maskFrom_wf env h t s d hd 0 0
+
+/-- the seed byte protects the body: what was encrypted decrypts to itself -/
+theorem encrypt_decrypt (env : BeaconEnv) (h : EnvWF env) (d : Bytes) : decryptData env (encryptData env d) = some d :=
+  decrypt_encrypt env d
+
+/-- the wrapping 16-bit age test is exactly "within ttl hours in either direction" -/
+theorem age_window (now thn ttl : Nat) (hn : now < 65536) (ht : thn < 65536) :
+    tooOld now thn ttl = !ageOk now thn (some ttl) :=
+  tooOld_eq now thn ttl ht
+
+/-- **peerlist_roundtrip_partial**: for every key (hash), hour stamp, at most 255 IPv4 and any IPv6 addresses, *if the masked body does not begin with a
+    zero byte*, decoding what was encoded returns the addresses (IPv4 first), provided the age is within the accepted range.
+    The hypothesis is forced: base-62 cannot express leading zero bytes (that failure is a recorded finding of the implementation). -/
+theorem peerlist_roundtrip_partial (env : BeaconEnv) (h : EnvWF env) (peers : List SockAddr) (hour now : Nat) (ttl : Option Nat)
+    (hp : ∀ a ∈ peers, sockWF a = true) (h4 : (peers.filter isV4).length ≤ 255) (hh : hour < 65536) (hn : now < 65536)
+    (hz : (encryptData env (plainBody peers hour)).head? ≠ some 0) (hage : ageOk now hour ttl = true) :
+    ∃ text, peerlistEncode env peers hour = some text ∧ peerlistDecode env text ttl now = normPeers peers := by
+  obtain ⟨text, e1, e2⟩ := encoded_decodes env h peers hour now ttl hp h4 hh hz
+  refine ⟨text, e1, ?_⟩
+  have hr : rejected now hour ttl = false := by
+    cases ttl with
+    | none => rfl
+    | some t => simp only [rejected, tooOld_eq now hour t hh, hage, Bool.not_true]
+  rw [e2, hr]; rfl
+
+/-- a beacon whose age exceeds the accepted range in both directions is ignored -/
+theorem too_old_ignored (env : BeaconEnv) (h : EnvWF env) (peers : List SockAddr) (hour now ttl : Nat)
+    (hp : ∀ a ∈ peers, sockWF a = true) (h4 : (peers.filter isV4).length ≤ 255) (hh : hour < 65536) (hn : now < 65536)
+    (hz : (encryptData env (plainBody peers hour)).head? ≠ some 0) (hage : ageOk now hour (some ttl) = false) :
+    ∃ text, peerlistEncode env peers hour = some text ∧ peerlistDecode env text (some ttl) now = [] := by
+  obtain ⟨text, e1, e2⟩ := encoded_decodes env h peers hour now (some ttl) hp h4 hh hz
+  refine ⟨text, e1, ?_⟩
+  have hr : rejected now hour (some ttl) = true := by
+    simp only [rejected, tooOld_eq now hour ttl hh, hage, Bool.not_false]
+  rw [e2, hr]; rfl
+
+/-- `findSub` returns the first occurrence -/
+theorem findSub_sound (hay needle : List Char) (i : Nat) (h : findSub hay needle = some i) :
+    needle.isPrefixOf (hay.drop i) = true ∧ ∀ j, j < i → needle.isPrefixOf (hay.drop j) = false :=
+  (findSub_some h).2
+
+theorem findSub_none (hay needle : List Char) (h : findSub hay needle = none) : ∀ j, j ≤ hay.length → needle.isPrefixOf (hay.drop j) = false :=
+  findSub_none' h
+
+/-- **embedded_found_partial** (clean case): a beacon standing alone in an alphanumeric text is decoded as its body, if the end marker does not occur
+    earlier inside `body ++ end` and the begin marker does not occur again behind the first one -/
+theorem decode_clean (env : BeaconEnv) (body : List Char) (ttl : Option Nat) (now : Nat)
+    (hal : ∀ c ∈ beginMarker env ++ body ++ endMarker env, c.isAlphanum = true)
+    (hbm : (beginMarker env).length = 5)
+    (hE : ∀ j, j < body.length → (endMarker env).isPrefixOf ((body ++ endMarker env).drop j) = false)
+    (hB : ∀ j, j ≤ (body ++ endMarker env).length → (beginMarker env).isPrefixOf ((body ++ endMarker env).drop j) = false) :
+    decode env (beginMarker env ++ body ++ endMarker env) ttl now = peerlistDecode env body ttl now :=
+  decode_single env body ttl now hal hE hB
+
+/-! ## non-vacuity: a toy environment -/
+
+def toyEnv : BeaconEnv :=
+  { ks := fun t s i => List.replicate 64 ((7 * t + 3 * s + i + 1) % 256), h0 := fun d => d.foldl (· + ·) 5 % 256 }
+
+theorem toyEnv_wf : EnvWF toyEnv where
+  ks_wf := fun t s i =>
+    ⟨Bytes.wf_replicate 64 _ (Nat.mod_lt _ (by decide)), List.length_replicate⟩
+  h0_lt := fun d => Nat.mod_lt _ (by decide)
+
+def toyPeers : List SockAddr :=
+  [.v6 [32, 1, 13, 184, 0, 0, 0, 0, 0, 0, 0, 0, 0, 0, 0, 1] 443, .v4 [10, 0, 0, 1] 3210, .v4 [192, 168, 1, 77] 65535]
+
+def toyText : List Char := "DRPvoXOHri1VECYTSk9Vq2NrqabOphE1BoLssIKbnqgecO".toList
+
+example : mask toyEnv [1, 2, 3] 2 9 = [43, 40, 41] := by decide +kernel
+example : decryptData toyEnv (encryptData toyEnv [1, 2, 3]) = some [1, 2, 3] := encrypt_decrypt toyEnv toyEnv_wf _
+/-- the seed byte does detect a change of the body -/
+example : decryptData toyEnv ((encryptData toyEnv [1, 2, 3]).set 0 7) = none := by decide +kernel
+example : tooOld 2 65535 3 = false ∧ tooOld 65535 2 3 = false ∧ tooOld 10 2 3 = true := by decide
+/-- all hypotheses of the round trip hold for the toy instance -/
+example : ∃ text, peerlistEncode toyEnv toyPeers 1000 = some text ∧
+    peerlistDecode toyEnv text (some 3) 1002 = normPeers toyPeers :=
+  peerlist_roundtrip_partial toyEnv toyEnv_wf toyPeers 1000 1002 (some 3) (by decide) (by decide) (by decide) (by decide)
+    (by decide +kernel) (by decide)
+example : peerlistEncode toyEnv toyPeers 1000 = some toyText := by decide +kernel
+example : peerlistDecode toyEnv toyText (some 3) 1002 =
+    [.v4 [10, 0, 0, 1] 3210, .v4 [192, 168, 1, 77] 65535, .v6 [32, 1, 13, 184, 0, 0, 0, 0, 0, 0, 0, 0, 0, 0, 0, 1] 443] := by
+  decide +kernel
+example : ∃ text, peerlistEncode toyEnv toyPeers 1000 = some text ∧ peerlistDecode toyEnv text (some 3) 1005 = [] :=
+  too_old_ignored toyEnv toyEnv_wf toyPeers 1000 1005 3 (by decide) (by decide) (by decide) (by decide)
+    (by decide +kernel) (by decide)
+example : peerlistDecode toyEnv toyText (some 3) 1005 = [] := by decide +kernel
+example : findSub "abcabd".toList "abd".toList = some 3 ∧ findSub "abcabd".toList "abe".toList = none ∧
+    findSub "abc".toList [] = some 0 := by decide
+/-- all hypotheses of `decode_clean` hold for the toy beacon -/
+example : decode toyEnv (beginMarker toyEnv ++ toyText ++ endMarker toyEnv) (some 3) 1002 =
+    peerlistDecode toyEnv toyText (some 3) 1002 :=
+  decode_clean toyEnv toyText (some 3) 1002 (by decide +kernel) (by decide +kernel) (by decide +kernel) (by decide +kernel)
+example : beginMarker toyEnv = "ERzuw".toList ∧ endMarker toyEnv = "1rbzL".toList := by decide +kernel
+example : encode toyEnv toyPeers 1000 = some ("ERzuw".toList ++ toyText ++ "1rbzL".toList) := by decide +kernel
+/-- the surrounding text is sanitised and skipped -/
+example : decode toyEnv ("see: ".toList ++ "ERzuw".toList ++ toyText ++ "1rbzL".toList ++ " -- ".toList) (some 3) 1002 =
+    normPeers toyPeers := by decide +kernel
+
+/-! ## the recorded finding: a masked body that begins with a zero byte is lost
+
+  `hz` cannot be dropped from `peerlist_roundtrip_partial`: with the toy environment, the single peer
+  below and hour stamp 510 the masked body is `[0, …]`; base-62 drops the zero byte, the decoder then
+  applies the seed check to a shifted string and returns nothing. -/
+
+def lostPeers : List SockAddr := [.v4 [10, 0, 0, 1] 3210]
+
+example : (encryptData toyEnv (plainBody lostPeers 510)).head? = some 0 := by decide +kernel
+example : ∀ a ∈ lostPeers, sockWF a = true := by decide
+example : ∃ text, peerlistEncode toyEnv lostPeers 510 = some text ∧
+    peerlistDecode toyEnv text none 510 = [] ∧ peerlistDecode toyEnv text none 510 ≠ normPeers lostPeers := by
+  refine ⟨(peerlistEncode toyEnv lostPeers 510).getD [], ?_, ?_, ?_⟩ <;> decide +kernel
+/-- the statement of the round trip without `hz` is false -/
+example : ¬ ∀ (env : BeaconEnv) (_ : EnvWF env) (peers : List SockAddr) (hour now : Nat) (ttl : Option Nat)
+    (_ : ∀ a ∈ peers, sockWF a = true) (_ : (peers.filter isV4).length ≤ 255) (_ : hour < 65536) (_ : now < 65536)
+    (_ : ageOk now hour ttl = true),
+    ∃ text, peerlistEncode env peers hour = some text ∧ peerlistDecode env text ttl now = normPeers peers := by
+  intro hall
+  obtain ⟨text, e1, e2⟩ := hall toyEnv toyEnv_wf lostPeers 510 510 none (by decide) (by decide) (by decide) (by decide) rfl
+  have e3 : peerlistDecode toyEnv ((peerlistEncode toyEnv lostPeers 510).getD []) none 510 ≠ normPeers lostPeers := by
+    decide +kernel
+  rw [e1] at e3
+  exact e3 e2
+
 end VpnCloud.Proofs.C17
